@@ -410,6 +410,9 @@ class Lifter(ast.NodeTransformer):
             return ast.Call(func=_L('CALLM'), args=[self.visit(f.value), _const(f.attr)] + args, keywords=kws)
         if isinstance(f, ast.Name) and f.id == 'super':
             return ast.Call(func=f, args=args, keywords=kws)
+        if isinstance(f, ast.Name) and f.id == 'log':
+            # logging stub: the (pure, formatting-only) arguments are evaluated only when logging may be on
+            return _call(_L('LOGCALL'), _lam(ast.Call(func=_L('CALL'), args=[self.visit(f)] + args, keywords=kws)))
         return ast.Call(func=_L('CALL'), args=[self.visit(f)] + args, keywords=kws)
 
     def visit_Subscript(self, node):
